@@ -164,6 +164,23 @@ def check_spherematch(ctx, repo):
                   construct='%s unlimited' % nm)
     # MAXMATCH-SIB
     loops = [n for n in walk_local(f.node) if isinstance(n, ast.For) and any('gotten1' in src(x) for x in walk_local(n))]
+    if not loops:
+        # no per-point counters at all: is there any sequential computation in the maxmatch branch (or in package helpers it calls)?
+        br = [n for n in walk_local(f.node) if isinstance(n, ast.If) and src(n.test) in ('maxmatch > 0', '0 < maxmatch')]
+        if br:
+            seq = [x for b in br[0].body for x in ast.walk(b) if isinstance(x, (ast.For, ast.While))]
+            for b in br[0].body:
+                for c in ast.walk(b):
+                    if isinstance(c, ast.Call):
+                        g = repo.resolve_call(c, f)
+                        if g is not None:
+                            seq += [x for x in ast.walk(g.node) if isinstance(x, (ast.For, ast.While))]
+            if not seq:
+                ctx.fail('C04.MAXMATCH-SIB', f, br[0], 'maxmatch selection without sequential state',
+                         'the maxmatch > 0 selection contains no loop: whether a pair is kept depends on how many *accepted* closer pairs already use '
+                         'its points, a loop-carried quantity that an element-wise (rank among candidates) formula cannot compute - pairs are dropped '
+                         'because of candidates that were themselves rejected')
+                return
     if len(loops) != 2:
         raise AnalysisError('C04: the sequential counting / filling loops of the maxmatch selection were not found (%d loops touch the per-point counters): '
                             'not an idiom this checker can judge' % len(loops))
